@@ -254,10 +254,15 @@ struct SetAd
 	{
 		Snap before; snap1(s.c, before);
 		size_t n = s.c.GetCount();
-		for (int i = 0; i < 7; ++i) { E x(9000 + i); if (!s.c.Insert(static_cast<const E&>(x)).inserted) { why = "probe: insert refused"; return false; } }
-		if (s.c.GetCount() != n + 7) { why = "probe: count after insert"; return false; }
+		// keep USING the container after the failure: enough insertions to allocate several more pool blocks / nodes / a bigger table
+		// (a failure that left an allocator, pool or bucket half-updated shows up only on later allocations)
+		const int M = 40;
+		for (int i = 0; i < M; ++i) { E x(9000 + i); if (!s.c.Insert(static_cast<const E&>(x)).inserted) { why = "probe: insert refused"; return false; } }
+		if (s.c.GetCount() != n + M) { why = "probe: count after insert"; return false; }
+		{ size_t visited = 0; for (const E& e : s.c) { (void)e; ++visited; } if (visited != n + M) { why = "probe: traversal after insert"; return false; } }
 		for (size_t i = 1; i < before.size(); ++i) { E x(before[i]); if (!s.c.ContainsKey(static_cast<const E&>(x))) { why = "probe: old key lost"; return false; } }
-		for (int i = 0; i < 7; ++i) { E x(9000 + i); if (!s.c.Remove(static_cast<const E&>(x))) { why = "probe: remove failed"; return false; } }
+		for (int i = 0; i < M; ++i) { E x(9000 + i); if (!s.c.ContainsKey(static_cast<const E&>(x))) { why = "probe: new key lost"; return false; } }
+		for (int i = 0; i < M; ++i) { E x(9000 + i); if (!s.c.Remove(static_cast<const E&>(x))) { why = "probe: remove failed"; return false; } }
 		Snap after; snap1(s.c, after);
 		{ Snap a = before, b = after; std::sort(a.begin() + 1, a.end()); std::sort(b.begin() + 1, b.end()); if (a != b) { why = "probe: contents differ after insert/remove"; return false; } }
 		s.c.Clear(); s.aux.Clear();
@@ -331,10 +336,11 @@ struct MapAd
 	static bool probe(St& s, std::string& why)
 	{
 		size_t n = s.c.GetCount();
-		for (int i = 0; i < 7; ++i) { K k(9000 + i); V v(i); if (!s.c.Insert(static_cast<const K&>(k), static_cast<const V&>(v)).inserted) { why = "probe: insert refused"; return false; } }
-		if (s.c.GetCount() != n + 7) { why = "probe: count after insert"; return false; }
-		for (int i = 0; i < 7; ++i) { K k(9000 + i); auto p = s.c.Find(static_cast<const K&>(k)); if (!Maker::found(s.c, p) || p->value.Value() != i) { why = "probe: find"; return false; } }
-		for (int i = 0; i < 7; ++i) { K k(9000 + i); if (!s.c.Remove(static_cast<const K&>(k))) { why = "probe: remove failed"; return false; } }
+		const int M = 40;   // keep using the container after the failure (see SetAd::probe)
+		for (int i = 0; i < M; ++i) { K k(9000 + i); V v(i); if (!s.c.Insert(static_cast<const K&>(k), static_cast<const V&>(v)).inserted) { why = "probe: insert refused"; return false; } }
+		if (s.c.GetCount() != n + M) { why = "probe: count after insert"; return false; }
+		for (int i = 0; i < M; ++i) { K k(9000 + i); auto p = s.c.Find(static_cast<const K&>(k)); if (!Maker::found(s.c, p) || p->value.Value() != i) { why = "probe: find"; return false; } }
+		for (int i = 0; i < M; ++i) { K k(9000 + i); if (!s.c.Remove(static_cast<const K&>(k))) { why = "probe: remove failed"; return false; } }
 		if (s.c.GetCount() != n) { why = "probe: count after remove"; return false; }
 		s.c.Clear(); s.aux.Clear();
 		if (s.c.GetCount() != 0) { why = "probe: Clear"; return false; }
@@ -384,9 +390,10 @@ struct MultiMapAd
 	static bool probe(St& s, std::string& why)
 	{
 		size_t n = s.c.GetCount();
-		for (int i = 0; i < 7; ++i) { K k(9000 + i / 2); V v(i); s.c.Add(static_cast<const K&>(k), static_cast<const V&>(v)); }
-		if (s.c.GetCount() != n + 7) { why = "probe: count after add"; return false; }
-		for (int i = 0; i < 4; ++i) { K k(9000 + i); if (s.c.RemoveKey(static_cast<const K&>(k)) == 0) { why = "probe: RemoveKey"; return false; } }
+		const int M = 60;   // keep using the container after the failure: several keys with long value arrays (pools!) and many keys
+		for (int i = 0; i < M; ++i) { K k(9000 + i / 6); V v(i); s.c.Add(static_cast<const K&>(k), static_cast<const V&>(v)); }
+		if (s.c.GetCount() != n + M) { why = "probe: count after add"; return false; }
+		for (int i = 0; i < M / 6; ++i) { K k(9000 + i); if (s.c.RemoveKey(static_cast<const K&>(k)) != 6) { why = "probe: RemoveKey"; return false; } }
 		if (s.c.GetCount() != n) { why = "probe: count after remove"; return false; }
 		s.c.Clear(); s.aux.Clear();
 		if (s.c.GetCount() != 0) { why = "probe: Clear"; return false; }
@@ -495,7 +502,8 @@ static std::string run_history(uint64_t seed, size_t nops, bool complete, Stats&
 // functors again, swallows their exception and asserts (HashSet.h:1025-1036) -- reported as a finding, see NOTES.md.
 template<bool XC> struct HMapSettings : momo::HashMapSettings { static const momo::ExtraCheckMode extraCheckMode = XC ? momo::ExtraCheckMode::bydefault : momo::ExtraCheckMode::nothing; };
 template<bool XC> struct TMapSettings : momo::TreeMapSettings { static const momo::ExtraCheckMode extraCheckMode = XC ? momo::ExtraCheckMode::bydefault : momo::ExtraCheckMode::nothing; };
-struct HMMapSettings : momo::HashMultiMapSettings { static const momo::ExtraCheckMode extraCheckMode = momo::ExtraCheckMode::nothing; };
+struct HMMapSettings : momo::HashMultiMapSettings { static const momo::ExtraCheckMode extraCheckMode = momo::ExtraCheckMode::nothing;
+	typedef momo::MemPoolParams<4, 0> ValueArrayMemPoolParams; };   // 4 blocks per pool buffer, no cache: the pool's look-ahead buffer request is reached
 template<typename E, typename Bucket, size_t EXPECT> struct HSetMaker
 {
 	typedef momo::HashTraitsStd<E, kit::Hash, kit::Eq, Bucket> Traits;
@@ -663,6 +671,7 @@ template<typename E> static bool dispatch(const std::string& cfg, uint64_t seed,
 	if (cfg == "hset_limp4") { typedef HSetMaker<E, momo::HashBucketLimP4<>, 4> Mk; go<SetAd<E, typename Mk::Cont, Mk>>(seed, nops, complete); return true; }
 	if (cfg == "hset_open8") { typedef HSetMaker<E, momo::HashBucketOpen8, 3> Mk;   /* slow hash => really BucketOpen2N2<3> */ go<SetAd<E, typename Mk::Cont, Mk>>(seed, nops, complete); return true; }
 	if (cfg == "hset_limp4_nv") { typedef HSetMakerNV<E> Mk; go<SetAd<E, typename Mk::Cont, Mk>>(seed, nops, complete); return true; }
+	if (cfg == "hset_limp4_p4") { typedef HSetMaker<E, momo::HashBucketLimP4<4, momo::MemPoolParams<4, 0>>, 4> Mk; go<SetAd<E, typename Mk::Cont, Mk>>(seed, nops, complete); return true; }   // small pools
 	if (cfg == "hset_limp") { typedef HSetMaker<E, momo::HashBucketLimP<>, momo::HashBucketLimP<>::maxCount> Mk; go<SetAd<E, typename Mk::Cont, Mk>>(seed, nops, complete); return true; }
 #endif
 #if PART == 0 || PART == 3
@@ -687,6 +696,7 @@ template<typename E> static bool dispatch(const std::string& cfg, uint64_t seed,
 	if (cfg == "tset_n4") { typedef TSetMaker<E, Node4> Mk; go<SetAd<E, typename Mk::Cont, Mk>>(seed, nops, complete); return true; }
 	if (cfg == "tset_n4i") { typedef TSetMaker<E, Node4i> Mk; go<SetAd<E, typename Mk::Cont, Mk>>(seed, nops, complete); return true; }
 	if (cfg == "tset_n4_nv") { typedef TSetMakerNV<E> Mk; go<SetAd<E, typename Mk::Cont, Mk>>(seed, nops, complete); return true; }
+	if (cfg == "tset_n4_p4") { typedef TSetMaker<E, momo::TreeNode<4, 2, momo::MemPoolParams<4, 0>>> Mk; go<SetAd<E, typename Mk::Cont, Mk>>(seed, nops, complete); return true; }
 	if (cfg == "tset_n32") { typedef TSetMaker<E, Node32> Mk; go<SetAd<E, typename Mk::Cont, Mk>>(seed, nops, complete); return true; }
 #endif
 #if PART == 0 || PART == 5
